@@ -34,8 +34,9 @@ type c17EnvFile struct {
 }
 
 type c17Opt struct {
-	Op string   `json:"op"` // name | env | osenv | envfiles | dotenv
+	Op string   `json:"op"` // name | env | osenv | envfiles | dotenv | workdir | cfgenv | defcfg | interp | envfile | loname
 	V  string   `json:"v,omitempty"`
+	B  bool     `json:"b,omitempty"`   // interp: WithInterpolation(b); loname: imperativelySet
 	A  bool     `json:"alt,omitempty"` // workdir (builder): true = the alternative directory, false = ""
 	D  *int     `json:"d,omitempty"`   // workdir (wire): directory index; absent = ""
 	L  []string `json:"l,omitempty"`
